@@ -10,6 +10,7 @@ CONSTANTS
   PPInterval = 2
   TestMode = TRUE
   FaultKinds <- RcStoreFault
+  MaxTimed = 2
   MaxEternal = 2
 VIEW view
 INVARIANT FaultNeverSuccess
